@@ -410,3 +410,39 @@ Proof.
   - apply conv_done; first [assumption|congruence].
   - apply conv_done; first [assumption|congruence].
 Qed.
+
+(* ---- the hypotheses survive an export: the theorem applies again to the state an export leaves, whether it
+   failed (a retry) or succeeded (a re-export over the previous output) ---- *)
+Lemma fails_dec c : fails c \/ ~ fails c.
+Proof.
+  unfold fails.
+  destruct (sc_fmt c); destruct (sc_fault c); destruct (sc_code c) as [code|e]; destruct (sc_beh c);
+    first [ left; solve [ left; discriminate | left; reflexivity | right; eexists; reflexivity
+                        | right; left; eexists; reflexivity | right; right; discriminate ]
+          | right; intro H; repeat (destruct H as [H|H]); solve [ congruence | destruct H as [x H]; discriminate ] ].
+Qed.
+
+Lemma done_all_res c s : wf c s -> done_all c s (res_target c) = None.
+Proof.
+  intro W. unfold done_all, done_file. rewrite (rt_neq_tg c s W).
+  assert (E : strip (res_target c) (res_target c) = Some []).
+  { induction (res_target c) as [|x r IH]; cbn [strip]; [reflexivity|]. rewrite str_eqb_refl. exact IH. }
+  destruct (sc_fmt c); destruct (sc_code c); destruct (sc_resdir c); rewrite ?E; cbn [path_eqb];
+    first [exact (wf_res_not_file c s W) | reflexivity].
+Qed.
+
+Theorem export_wf_preserved c s s' o :
+  wf c s -> sc_fixed c = true -> export c s = (s', o) -> wf c s'.
+Proof.
+  intros W F E. destruct (export_all_or_nothing c s W F) as [Hf Hd].
+  assert (G : (forall q, is_prefix (sc_t1 c) q = true \/ is_prefix (sc_t2 c) q = true ->
+                         file s' q = None /\ isdir s' q = false) /\ file s' (res_target c) = None).
+  { destruct (fails_dec c) as [H|H].
+    - destruct (Hf H) as [s1 [e [E1 [E2 E3]]]]. rewrite E in E1. injection E1 as <- _.
+      split; [exact E3|]. rewrite E2. exact (wf_res_not_file c s W).
+    - destruct (Hd H) as [s1 [E1 [E2 E3]]]. rewrite E in E1. injection E1 as <- _.
+      split; [exact E3|]. rewrite E2. exact (done_all_res c s W). }
+  destruct G as [G1 G2]. destruct W. constructor; try assumption.
+  - intros q Hq. apply G1. left; exact Hq.
+  - intros q Hq. apply G1. right; exact Hq.
+Qed.
